@@ -3,6 +3,7 @@
 package internal
 
 import (
+	"context"
 	"fmt"
 	"sort"
 	"sync/atomic"
@@ -23,10 +24,11 @@ type plStep struct {
 	Op   string `json:"op"` // set | del | get | deliver | tick | race | quiesce
 	K    int    `json:"k,omitempty"`
 	Cost int    `json:"cost,omitempty"`
-	TTL  int64  `json:"ttl,omitempty"` // ns; 0 = none
-	I    int    `json:"i,omitempty"`   // pool index (deliver; also used when the pool is full)
-	N    int    `json:"n,omitempty"`   // get: repeat count
-	Dt   int64  `json:"dt,omitempty"`  // tick/race: virtual ns to advance first
+	TTL  int64  `json:"ttl,omitempty"`  // ns; 0 = none
+	I    int    `json:"i,omitempty"`    // pool index (deliver; also used when the pool is full)
+	N    int    `json:"n,omitempty"`    // get: repeat count
+	Dt   int64  `json:"dt,omitempty"`   // tick/race: virtual ns to advance first
+	Load bool   `json:"load,omitempty"` // set: the write is a loading Get whose loader returns (value, Cost, TTL); a hit writes nothing
 	// race: during this tick, when expiry reaches key K just before the deadline
 	// re-check, perform Set(K, Cost, TTL) (hook H4)
 }
@@ -35,7 +37,8 @@ type plCase struct {
 	MaxSize    int      `json:"maxsize"`
 	Pool       bool     `json:"entry_pool"`
 	Doorkeeper bool     `json:"doorkeeper,omitempty"`
-	Pending    int      `json:"pending"` // max events in flight (= concurrent clients)
+	Loading    bool     `json:"loading,omitempty"` // a LoadingStore sits on the store; 'set' steps flagged Load go through its Get
+	Pending    int      `json:"pending"`           // max events in flight (= concurrent clients)
 	Keys       int      `json:"keys"`
 	Steps      []plStep `json:"steps"`
 	Order      []int    `json:"order"` // delivery order at the final quiescence
@@ -82,6 +85,7 @@ func genPipeline(pool func(*rapid.T) bool, withTTL bool) func(t *rapid.T) plCase
 		c.Pool = pool(t)
 		c.Pending = rapid.IntRange(1, 6).Draw(t, "pending")
 		c.Keys = rapid.IntRange(1, 8).Draw(t, "keys")
+		c.Loading = rapid.IntRange(0, 3).Draw(t, "loading") == 0
 		cost := func() int {
 			switch rapid.IntRange(0, 4).Draw(t, "costClass") {
 			case 0, 1:
@@ -99,6 +103,9 @@ func genPipeline(pool func(*rapid.T) bool, withTTL bool) func(t *rapid.T) plCase
 				s.Op, s.Cost = "set", cost()
 				if withTTL {
 					s.TTL = genPlTTL(t)
+				}
+				if c.Loading {
+					s.Load = rapid.IntRange(0, 2).Draw(t, "viaLoader") == 0
 				}
 			case op < 13:
 				s.Op = "del"
@@ -212,7 +219,12 @@ type plRun struct {
 	reclaim    bool // C04(b)
 	// classes
 	reordered, delBeforeInsert, evictBetweenDelete, raced bool
-	noPressure                                            bool // the costs of ALL writes of the case add up to at most MaxSize: no eviction can be a capacity eviction
+	// loading store on top (cases with Loading)
+	ls                *LoadingStore[int, int]
+	loadVal, loadCost int
+	loadTTL           int64
+	loaderRan, loads  bool
+	noPressure        bool // the costs of ALL writes of the case add up to at most MaxSize: no eviction can be a capacity eviction
 }
 
 func (r *plRun) now() int64 { return r.s.timerwheel.clock.NowNano() }
@@ -325,6 +337,36 @@ func (r *plRun) apiSet(k, cost int, ttl int64) {
 	r.byVal[v] = in
 }
 
+// apiLoad: a loading Get; when it misses (absent, or expired and not yet reclaimed) the loader's
+// result is stored exactly as Set would store it, and leaves the same kind of event
+func (r *plRun) apiLoad(k, cost int, ttl int64) {
+	r.seq++
+	v := r.seq
+	r.loadVal, r.loadCost, r.loadTTL, r.loaderRan = v, cost, ttl, false
+	_, _ = r.ls.Get(context.Background(), k)
+	e := r.mapGet(k)
+	if !r.loaderRan || e == nil || e.value != v {
+		r.lastInc = nil
+		r.collect()
+		return
+	}
+	r.loads = true
+	in := r.resident[k]
+	if in == nil || in.ptr != e {
+		in = &plInc{id: len(r.incs), key: k, ptr: e}
+		r.incs = append(r.incs, in)
+		r.resident[k] = in
+		r.stored++
+	}
+	r.lastInc = in
+	r.collect()
+	in.lastVal = v
+	in.values = append(in.values, v)
+	in.deadline = e.expire.Load()
+	in.settled = -1
+	r.byVal[v] = in
+}
+
 // after every step: account for departures and listener calls
 func (r *plRun) afterStep(op string, delKey int) *verifkit.Failure {
 	departedNow := map[*plInc]bool{}
@@ -373,7 +415,7 @@ func (r *plRun) afterStep(op string, delKey int) *verifkit.Failure {
 					return r.failf("notify/late-evict", "reason %d for key %d value %d, but the entry left the map in an earlier step", cl.reason, cl.key, cl.val)
 				}
 				if cl.reason == EVICTED && r.noPressure {
-					return r.failf("notify/wrong-reason", "EVICTED for key %d value %d (deadline %d, now %d) although every write of the case has the same cost and all keys together (at least %d) fit into MaxSize %d: nothing can have been evicted for capacity", cl.key, cl.val, in.deadline, r.now(), len(r.resident)+1, r.c.MaxSize)
+					return r.failf("notify/wrong-reason", "EVICTED for key %d value %d (deadline %d, now %d) although every write of the case has the same cost and all writes together fit into MaxSize %d: nothing can have been evicted for capacity", cl.key, cl.val, in.deadline, r.now(), r.c.MaxSize)
 				}
 				if cl.reason == EXPIRED {
 					d := in.deadline
@@ -568,13 +610,21 @@ func execPipelineInner(c plCase, x *verifkit.Ctx, accounting, notify, reclaim bo
 		Listener: func(k, v int, reason RemoveReason) { r.calls = append(r.calls, plCall{k, v, reason}) },
 	})
 	r.s.mask = 0 // every hit goes to stripe 0: the 16th hit drains deterministically
-	// no-pressure cases: every write has the same cost (so there are no cost deltas whose out-of-order
-	// arrival could make the policy's transient view exceed the real total) and all keys together fit
-	uniform, c0 := true, 0
-	distinct := map[int]bool{}
+	if c.Loading {
+		r.ls = NewLoadingStore(r.s)
+		r.ls.Loader(func(ctx context.Context, key int) (Loaded[int], error) {
+			r.loaderRan = true
+			return Loaded[int]{Value: r.loadVal, Cost: int64(r.loadCost), TTL: time.Duration(r.loadTTL)}, nil
+		})
+	}
+	// no-pressure cases: every write has the same cost c0 (so there are no cost deltas whose
+	// out-of-order arrival could distort the policy's view) and writes x c0 <= MaxSize: even if every
+	// write created an entry of its own and none of the deleted ones had been taken out of the policy
+	// yet (their REMOVE events may arrive late), the policy's total stays within MaxSize
+	uniform, c0, writes := true, 0, 0
 	for _, st := range c.Steps {
 		if st.Op == "set" || st.Op == "race" {
-			distinct[st.K] = true
+			writes++
 			cst := st.Cost
 			if cst < 1 {
 				cst = 1
@@ -587,7 +637,7 @@ func execPipelineInner(c plCase, x *verifkit.Ctx, accounting, notify, reclaim bo
 			}
 		}
 	}
-	r.noPressure = uniform && len(distinct)*c0 <= c.MaxSize
+	r.noPressure = uniform && writes*c0 <= c.MaxSize
 	if c.Pending < 1 {
 		c.Pending = 1
 	}
@@ -609,7 +659,11 @@ func execPipelineInner(c plCase, x *verifkit.Ctx, accounting, notify, reclaim bo
 		}
 		switch st.Op {
 		case "set":
-			r.apiSet(st.K, st.Cost, st.TTL)
+			if st.Load && r.ls != nil {
+				r.apiLoad(st.K, st.Cost, st.TTL)
+			} else {
+				r.apiSet(st.K, st.Cost, st.TTL)
+			}
 		case "del":
 			if in := r.resident[st.K]; in != nil {
 				// class: entry deleted while its insert event is still pending
@@ -734,6 +788,7 @@ func execPipelineInner(c plCase, x *verifkit.Ctx, accounting, notify, reclaim bo
 			}
 		}
 	}
+	x.ClassIf(r.loads, "write-through-loader")
 	x.ClassIf(r.reordered, "reordered-arrival")
 	x.ClassIf(r.delBeforeInsert, "delete-before-insert")
 	x.ClassIf(r.evictBetweenDelete, "evict-or-expire-between-delete-and-event")
